@@ -85,6 +85,7 @@ const (
 	allocBatch     = 64
 	batchSuspect   = 8 << 20 // a batch that allocated more than this is re-measured call by call
 	maxRestarts    = 400
+	fatalFuse      = 3
 	progressBytes  = 32
 	gcEvery        = 24 << 20
 )
@@ -258,6 +259,9 @@ type specT struct {
 	Scratch  string   `json:"scratch"`
 	Start    posT     `json:"start"`
 	Skip     []posT   `json:"skip"`
+	// Disabled: decoders that already killed fatalFuse workers (out of memory, stack overflow, hang);
+	// they are not called any more in this run (reported as a cap next to the violations)
+	Disabled []string `json:"disabled,omitempty"`
 	Only     []string `json:"only,omitempty"` // restrict to groups (debugging)
 	Order    string   `json:"order_file,omitempty"`
 	Decoder  string   `json:"decoder,omitempty"`
@@ -444,6 +448,10 @@ func workerMain(env *Env, spec specT) {
 	for _, s := range spec.Skip {
 		skip[s] = true
 	}
+	disabled := map[string]bool{}
+	for _, d := range spec.Disabled {
+		disabled[d] = true
+	}
 
 	seenDistinct := map[string]bool{}
 	violCount := map[string]int64{}
@@ -512,7 +520,7 @@ func workerMain(env *Env, spec specT) {
 				outs[bi] = make([]outcome, len(sp.Decs))
 				for di, d := range sp.Decs {
 					pos := posT{si, p.i, di}
-					if skip[pos] {
+					if skip[pos] || disabled[d.Name] {
 						outs[bi][di] = outcome{Class: "skipped-after-crash"}
 						continue
 					}
@@ -532,7 +540,7 @@ func workerMain(env *Env, spec specT) {
 				for bi, p := range batch {
 					for di, d := range sp.Decs {
 						pos := posT{si, p.i, di}
-						if skip[pos] || outs[bi][di].Panic != "" {
+						if skip[pos] || disabled[d.Name] || outs[bi][di].Panic != "" {
 							continue
 						}
 						setPos(si, p.i, di)
@@ -548,7 +556,7 @@ func workerMain(env *Env, spec specT) {
 			for bi, p := range batch {
 				inputs++
 				for di, d := range sp.Decs {
-					if skip[posT{si, p.i, di}] {
+					if skip[posT{si, p.i, di}] || disabled[d.Name] {
 						continue
 					}
 					record(d, p.in, outs[bi][di], p.i)
@@ -619,6 +627,9 @@ type shardState struct {
 }
 
 type parent struct {
+	fatalMu  sync.Mutex
+	fatal    map[string]int  // decoder -> worker deaths / confirmed hangs
+	disabled map[string]bool // decoders over the fuse
 	r       *ev.Run
 	spaces  []*Space
 	scratch string
@@ -722,7 +733,7 @@ func (p *parent) runShard(st *shardState) {
 			ev.Fatalf("progress: %v", err)
 		}
 		spec := p.writeSpec(fmt.Sprintf("spec-%d.json", st.k), specT{Mode: "worker", Shard: st.k, Of: runtime.GOMAXPROCS(0),
-			Progress: st.progress, Start: st.start, Skip: st.skip})
+			Progress: st.progress, Start: st.start, Skip: st.skip, Disabled: p.disabledList()})
 		cmd := exec.Command(os.Args[0], "-c14child", spec)
 		cmd.Env = append(os.Environ(), "GOMAXPROCS=1")
 		stdin, _ := cmd.StdinPipe()
@@ -806,6 +817,7 @@ func (p *parent) runShard(st *shardState) {
 		p.r.Class(sp.Group+":crash", 1)
 		p.r.Distinct(d.Name + "|crash|" + cls)
 		st.skip = append(st.skip, pos)
+		p.noteFatal(d.Name)
 	}
 }
 
@@ -837,8 +849,36 @@ func (p *parent) handleHang(st *shardState, pos posT) {
 			fmt.Sprintf("%s did not return (more than %v of CPU time, or blocked for %[2]v; %d of %d re-runs) on input %s (\"%s\"; %s)", d.Name, hangGuard, hangs, hangReruns, hexTrunc(in), printable(in), desc),
 			payloadT{Decoder: d.Name, Input: ev.Hex(in), Space: sp.Name, Index: pos.Index, Desc: desc})
 		p.r.Distinct(d.Name + "|hang")
+		p.noteFatal(d.Name)
 	}
 	st.skip = append(st.skip, pos)
+}
+
+// noteFatal counts worker deaths and confirmed hangs per decoder; a decoder over the fuse is not
+// called any more (every further fatal input would cost a worker and up to hangGuard x (1 +
+// hangReruns) of time; the violations already say what is wrong).
+func (p *parent) noteFatal(dec string) {
+	p.fatalMu.Lock()
+	defer p.fatalMu.Unlock()
+	if p.fatal == nil {
+		p.fatal, p.disabled = map[string]int{}, map[string]bool{}
+	}
+	p.fatal[dec]++
+	if p.fatal[dec] >= fatalFuse && !p.disabled[dec] {
+		p.disabled[dec] = true
+		p.r.Capped(fmt.Sprintf("decoder %s killed %d workers (out of memory / crash / hang): not called for the remaining inputs of this run", dec, p.fatal[dec]))
+	}
+}
+
+func (p *parent) disabledList() []string {
+	p.fatalMu.Lock()
+	defer p.fatalMu.Unlock()
+	var out []string
+	for d := range p.disabled {
+		out = append(out, d)
+	}
+	sort.Strings(out)
+	return out
 }
 
 func (p *parent) commit(rec recT, pending []recT) {
